@@ -222,7 +222,7 @@ func c05Profiles(tier Tier) []*explore.Profile {
 			acts := transferMenu(w, menuOpts{shards: 2})
 			acts = append(acts, supplyMenu(w, o)...)
 			acts = append(acts, roleMenu(w, o, [][]byte{uni.F, uni.S})...)
-			acts = append(acts, freezeMenu(w, menuOpts{thorough: true, shards: 2}, true)...)
+			acts = append(acts, freezeMenu(w, menuOpts{thorough: true, shards: 2, nftFreeze: true}, true)...)
 			acts = append(acts, accountMenu(w, o)...)
 			acts = append(acts, impostorMenu(w, o)...)
 			acts = append(acts, deliveries(w)...)
